@@ -182,6 +182,11 @@ func applySymbol(t *Tracker, sym string, seq int) {
 			t.ChangeTitle(first, actor, title)
 			return
 		}
+		if pos, v, ok := strings.Cut(sym, "="); ok {
+			if txt, ok := c1Texts[v]; ok && applyC1(t, pos, txt, actor, seq) {
+				return
+			}
+		}
 		panic("unknown symbol " + sym)
 	}
 }
@@ -211,6 +216,80 @@ func RenameHistories() [][]string {
 			out = append(out, bare)
 			busy := append(append([]string{"N", "c"}, seq...), "la")
 			out = append(out, busy)
+		}
+	}
+	return out
+}
+
+// C1 control characters (U+0080..U+009F: unicode.IsControl, but no byte below 0x20), each the only
+// control character of its text, plus one text where a C1 character sits next to a newline.
+var c1Texts = map[string]string{
+	"nel":    "\u0085",
+	"mid":    "a\u0085b",
+	"quoted": "\u0092quoted\u0092",
+	"apc":    "\u009f",
+	"nl":     "first\u0085\nsecond",
+}
+
+var c1Variants = []string{"nel", "mid", "quoted", "apc", "nl"}
+
+const userC1 = 13 // a third account whose display name is the C1 text
+
+// applyC1 puts txt at one text position the importer handles.
+func applyC1(t *Tracker, pos, txt string, actor, seq int) bool {
+	first := t.issue(1)
+	switch pos {
+	case "NT": // issue title
+		t.NewIssue(txt, fmt.Sprintf("description of issue %d", len(t.Issues)+1))
+	case "ND": // issue description
+		t.NewIssue(fmt.Sprintf("Issue %d", len(t.Issues)+1), txt)
+	case "c": // comment body
+		t.Comment(first, actor, txt)
+	case "e": // comment edit
+		t.EditNote(first, 0, txt)
+	case "d": // description change
+		t.ChangeDescription(first, actor, txt)
+	case "la": // label name
+		t.Label(first, actor, "add", "l"+txt)
+	case "lr":
+		t.Label(first, actor, "remove", "l"+txt)
+	case "lonly": // label name that is nothing but the text
+		t.Label(first, actor, "add", txt)
+	case "r": // rename note
+		t.ChangeTitle(first, actor, txt)
+	case "cu": // comment by a user whose display name is the text
+		t.Users[userC1] = &simUser{ID: userC1, Username: "carol", Name: txt}
+		t.Comment(first, userC1, fmt.Sprintf("comment %d by carol", seq))
+	default:
+		return false
+	}
+	return true
+}
+
+// C1Histories: every C1 text at every text position, alone and with a plain event around it.
+// withUserNames adds the two inputs the unchanged importer is known not to handle: the display name
+// of a user (ensurePerson hands user.Name to the identity unsanitised: "name has unsafe characters"
+// on every run) and a label name made of one control character only.
+func C1Histories(withUserNames, withOnlyControlLabels bool) [][]string {
+	var out [][]string
+	for _, v := range c1Variants {
+		s := func(pos string) string { return pos + "=" + v }
+		out = append(out,
+			[]string{s("NT")}, []string{s("NT"), "c"}, []string{s("NT"), "N"}, []string{"N", s("NT")},
+			[]string{s("ND")}, []string{s("ND"), "d"},
+			[]string{"N", s("c")}, []string{"N", s("c"), "c"}, []string{"N", "c", s("c")},
+			[]string{"N", "c", s("e")}, []string{"N", "c", s("e"), "e"},
+			[]string{"N", s("d")}, []string{"N", s("d"), "d"},
+			[]string{"N", s("la")}, []string{"N", s("la"), s("lr")}, []string{"N", s("la"), "c"},
+			[]string{"N", s("r")}, []string{"N", s("r"), "t"}, []string{"N", "t", s("r")},
+		)
+		if (v != "nel" && v != "apc") || withOnlyControlLabels {
+			// a label whose name is nothing but a control character cleans to the empty label, which
+			// git-bug refuses ("added label: empty"): kept out of the default space, see C1Histories' flag
+			out = append(out, []string{"N", s("lonly")})
+		}
+		if withUserNames {
+			out = append(out, []string{"N", s("cu")}, []string{"N", s("cu"), "c"})
 		}
 	}
 	return out
